@@ -649,3 +649,442 @@ Proof.
   destruct (Nat.ltb 50 depth) eqn:El; [apply PeanoNat.Nat.ltb_lt in El; lia|].
   apply c4_mem_true in Hin. rewrite Hin. cbn. auto.
 Qed.
+
+(* ------------------------------------------------------------------ (d') AcroForm *)
+Lemma c4_finherit_inv : forall fuel g ov node depth seen, c4_wf g -> NoDup seen -> incl seen (c4_keys g) ->
+  (length g + 9 < fuel + length seen + Nat.min depth 9)%nat -> c4_finherit fuel g ov node depth seen <> None.
+Proof.
+  induction fuel as [|f IH]; intros g ov node depth seen Hwf Hn Hi Hlen.
+  - pose proof (c4_nodup_keys_le _ g seen Hn Hi). lia.
+  - cbn [c4_finherit]. destruct (c4_find g node) as [nd|] eqn:Ef; [|discriminate].
+    destruct (if c4_fparent ov node nd =? 0 then None else c4_find g (c4_fparent ov node nd)) as [pd|]; [|discriminate].
+    destruct (Nat.ltb (S depth) 10) eqn:El.
+    + apply PeanoNat.Nat.ltb_lt in El. cbn [negb]. destruct (c4f_FT pd); [discriminate|].
+      apply IH; try assumption. lia.
+    + apply PeanoNat.Nat.ltb_ge in El.
+      destruct (c4_add node seen) as [ok seen'] eqn:Ea.
+      destruct (c4_add_spec _ _ _ _ Ea (c4_wf_find_nonzero _ g node nd Hwf Ef)) as [(-> & Hni & ->)|(-> & _ & ->)]; cbn [negb]; [|discriminate].
+      destruct (c4f_FT pd); [discriminate|].
+      apply IH; [assumption | constructor; assumption | | cbn [length]; lia].
+      intros x [Hx|Hx]; [subst; eapply c4_find_some_key; eauto | auto].
+Qed.
+
+(* FormNode::inherited: the walk up the /Parent entries ends after at most 10 + (number of nodes) steps although loop
+   detection only starts at depth 10 *)
+Lemma acroform_inherit_fuel_lemma : forall g ov node, c4_wf g -> c4_finherit (length g + 11) g ov node 0 [] <> None.
+Proof. intros g ov node Hwf. apply c4_finherit_inv; [assumption | constructor | intros x [] | cbn; lia]. Qed.
+
+(* total length of the /Kids arrays of the nodes in l, and of the whole graph *)
+Definition c4_fw (g : list (N * c4_fnode)) (l : list N) : N :=
+  fold_right (fun n acc => N.of_nat (length (c4_fkids g n)) + acc) 0 l.
+Definition c4_fkl (nd : c4_fnode) : N := N.of_nat (length (match c4f_kids nd with Some l => l | None => [] end)).
+Definition c4_ftotal (g : list (N * c4_fnode)) : N := fold_right (fun p acc => c4_fkl (snd p) + acc) 0 g.
+
+Lemma c4_fkids_cons : forall k a g n, c4_fkids ((k, a) :: g) n = if n =? 0 then [] else if n =? k then match c4f_kids a with Some l => l | None => [] end else c4_fkids g n.
+Proof.
+  intros k a g n. unfold c4_fkids. destruct (n =? 0) eqn:E0; [reflexivity|]. cbn [c4_find]. destruct (n =? k); reflexivity.
+Qed.
+
+Lemma c4_fw_cons_le : forall k a g l, NoDup l ->
+  c4_fw ((k, a) :: g) l <= (if in_dec N.eq_dec k l then c4_fkl a else 0) + c4_fw g l.
+Proof.
+  intros k a g l. induction l as [|n l IH]; intros Hn; [cbn; lia|].
+  apply NoDup_cons_iff in Hn as [Hni Hn']. specialize (IH Hn').
+  cbn [c4_fw fold_right]. fold (c4_fw ((k, a) :: g) l). fold (c4_fw g l).
+  rewrite c4_fkids_cons.
+  destruct (in_dec N.eq_dec k (n :: l)) as [Hin|Hnin]; destruct (in_dec N.eq_dec k l) as [Hin'|Hnin'].
+  - destruct (n =? 0); [cbn [length]; lia|]. destruct (n =? k) eqn:E; [apply N.eqb_eq in E; subst; contradiction | lia].
+  - destruct Hin as [<-|Hin]; [|contradiction].
+    destruct (n =? 0); [cbn [length]; unfold c4_fkl; lia|]. rewrite N.eqb_refl. unfold c4_fkl. lia.
+  - exfalso. apply Hnin. right. exact Hin'.
+  - destruct (n =? 0); [cbn [length]; lia|]. destruct (n =? k) eqn:E; [apply N.eqb_eq in E; subst; exfalso; apply Hnin; left; reflexivity | lia].
+Qed.
+
+Lemma c4_fw_le_total : forall g l, NoDup l -> c4_fw g l <= c4_ftotal g.
+Proof.
+  induction g as [|[k a] g IH]; intros l Hn.
+  - induction l as [|n l IHl]; [cbn; lia|]. apply NoDup_cons_iff in Hn as [_ Hn']. cbn [c4_fw fold_right]. fold (c4_fw (@nil (N * c4_fnode)) l).
+    specialize (IHl Hn'). unfold c4_fkids. destruct (n =? 0); cbn in *; lia.
+  - pose proof (c4_fw_cons_le k a g l Hn) as H. specialize (IH l Hn). cbn [c4_ftotal fold_right snd]. fold (c4_ftotal g).
+    destruct (in_dec N.eq_dec k l); lia.
+Qed.
+
+Definition c4_finv (g : list (N * c4_fnode)) (st : c4_fst) : Prop :=
+  NoDup (c4fs_exp st) /\ incl (c4fs_exp st) (c4_keys g) /\
+  (forall x, In x (c4fs_exp st) -> In x (c4fs_fields st) \/ In x (c4fs_ann st) \/ In x (c4fs_unnamed st)) /\
+  (c4fs_maxdepth st <= 100)%nat /\ c4fs_fuel_out st = false.
+
+Lemma c4_finv_ext : forall g st st',
+  c4fs_exp st' = c4fs_exp st -> incl (c4fs_fields st) (c4fs_fields st') -> incl (c4fs_ann st) (c4fs_ann st') ->
+  incl (c4fs_unnamed st) (c4fs_unnamed st') -> (c4fs_maxdepth st' <= 100)%nat -> c4fs_fuel_out st' = false ->
+  c4_finv g st -> c4_finv g st'.
+Proof.
+  intros g st st' He Hf Ha Hu Hm Hfo (H1 & H2 & H3 & _ & _). unfold c4_finv. rewrite He.
+  repeat split; try assumption. intros x Hx. destruct (H3 x Hx) as [H|[H|H]]; auto.
+Qed.
+
+Definition c4_frel (g : list (N * c4_fnode)) (n : N) (st st' : c4_fst) : Prop :=
+  c4_finv g st' /\ c4fs_calls st' + c4_fw g (c4fs_exp st) <= c4fs_calls st + n + c4_fw g (c4fs_exp st').
+
+Lemma c4_incl_if_cons : forall (x : N) l, incl l (if c4_mem x l then l else x :: l).
+Proof. intros x l. destruct (c4_mem x l); [apply incl_refl | apply incl_tl, incl_refl]. Qed.
+
+Ltac c4_proj := cbn [c4fs_fields c4fs_ann c4fs_bad c4fs_unnamed c4fs_calls c4fs_wloop c4fs_wtwo c4fs_wparent c4fs_wkind c4fs_exp
+  c4fs_maxdepth c4fs_par c4fs_fuel_out c4fs_upd_calls c4fs_upd_fuel c4fs_upd_wloop c4fs_upd_wkind c4fs_upd_wtwo c4fs_upd_enter
+  c4fs_upd_annot c4fs_upd_correct c4fs_upd_named c4fs_upd_unnamed c4fs_upd_exp c4fs_upd_bad].
+Ltac c4_simple_branch Hinv :=
+  cbn [snd]; split; [eapply c4_finv_ext; [| | | | | |exact Hinv]; c4_proj; try reflexivity; try apply incl_refl; try apply Hinv | c4_proj; lia].
+
+Lemma c4_ffold_rel : forall f g field depth,
+  (forall kid st, c4_finv g st -> c4_frel g 1 st (snd (c4_ftrav f g kid field (S depth) st))) ->
+  forall l st, c4_finv g st ->
+  c4_frel g (N.of_nat (length l)) st
+    (fold_left (fun st0 kid => if c4_mem kid (c4fs_bad st0) then st0
+                               else let '(r, st') := c4_ftrav f g kid field (S depth) st0 in
+                                    if r then st' else c4fs_upd_bad kid st') l st).
+Proof.
+  intros f g field depth H l. induction l as [|kid l IHl]; intros st Hinv.
+  - cbn [fold_left length]. split; [exact Hinv | lia].
+  - cbn [fold_left length]. destruct (c4_mem kid (c4fs_bad st)).
+    + destruct (IHl st Hinv) as [H1 H2]. split; [exact H1 | lia].
+    + pose proof (H kid st Hinv) as Hr. destruct (c4_ftrav f g kid field (S depth) st) as [r st'] eqn:E. cbn [snd] in Hr.
+      destruct Hr as [Hi1 Hc1].
+      destruct r.
+      * destruct (IHl st' Hi1) as [H1 H2]. split; [exact H1 | lia].
+      * assert (Hib : c4_finv g (c4fs_upd_bad kid st')).
+        { eapply c4_finv_ext; [| | | | | |exact Hi1]; c4_proj; try reflexivity; try apply incl_refl; apply Hi1. }
+        destruct (IHl _ Hib) as [H1 H2]. split; [exact H1|]. revert H2. c4_proj. lia.
+Qed.
+
+Lemma c4_record_inv : forall g field parent pc nd st2,
+  c4_finv g st2 -> In field (c4_keys g) -> ~ In field (c4fs_exp st2) ->
+  (c4f_T nd = false -> c4_fis_annot nd = true -> In field (c4fs_ann st2)) ->
+  c4_finv g (c4fs_upd_record field parent pc nd st2) /\
+  c4fs_exp (c4fs_upd_record field parent pc nd st2) = field :: c4fs_exp st2 /\
+  c4fs_calls (c4fs_upd_record field parent pc nd st2) = c4fs_calls st2.
+Proof.
+  intros g field parent pc nd st2 (H1 & H2 & H3 & H4 & H5) Hk Hni Hann.
+  unfold c4fs_upd_record.
+  set (sa := match pc with 3%nat => c4fs_upd_correct field parent st2 | _ => st2 end).
+  assert (Ea : c4fs_exp sa = c4fs_exp st2 /\ c4fs_fields sa = c4fs_fields st2 /\ c4fs_ann sa = c4fs_ann st2 /\
+               c4fs_unnamed sa = c4fs_unnamed st2 /\ c4fs_calls sa = c4fs_calls st2 /\ c4fs_maxdepth sa = c4fs_maxdepth st2 /\
+               c4fs_fuel_out sa = c4fs_fuel_out st2).
+  { unfold sa. destruct pc as [|[|[|[|p]]]]; repeat split; reflexivity. }
+  destruct Ea as (Ea1 & Ea2 & Ea3 & Ea4 & Ea5 & Ea6 & Ea7).
+  set (sb := if c4f_T nd then c4fs_upd_named field sa else if negb (c4_fis_annot nd) then c4fs_upd_unnamed field sa else sa).
+  assert (Eb : c4fs_exp sb = c4fs_exp st2 /\ incl (c4fs_fields st2) (c4fs_fields sb) /\ incl (c4fs_ann st2) (c4fs_ann sb) /\
+               incl (c4fs_unnamed st2) (c4fs_unnamed sb) /\ c4fs_calls sb = c4fs_calls st2 /\ c4fs_maxdepth sb = c4fs_maxdepth st2 /\
+               c4fs_fuel_out sb = c4fs_fuel_out st2 /\
+               (In field (c4fs_fields sb) \/ In field (c4fs_ann sb) \/ In field (c4fs_unnamed sb))).
+  { unfold sb. destruct (c4f_T nd) eqn:ET; [|destruct (c4_fis_annot nd) eqn:EA; cbn [negb]]; c4_proj;
+      rewrite ?Ea1, ?Ea2, ?Ea3, ?Ea4, ?Ea5, ?Ea6, ?Ea7; repeat split; try reflexivity; try apply incl_refl; try apply c4_incl_if_cons.
+    - left. destruct (c4_mem field (c4fs_fields st2)) eqn:Em; [apply c4_mem_true; exact Em | left; reflexivity].
+    - right. left. apply Hann; reflexivity.
+    - right. right. destruct (c4_mem field (c4fs_unnamed st2)) eqn:Em; [apply c4_mem_true; exact Em | left; reflexivity]. }
+  destruct Eb as (Eb1 & Eb2 & Eb3 & Eb4 & Eb5 & Eb6 & Eb7 & Eb8).
+  c4_proj. rewrite Eb1, Eb5. split; [|split; reflexivity].
+  unfold c4_finv. c4_proj. rewrite Eb1, Eb6, Eb7. repeat split; try assumption.
+  - constructor; assumption.
+  - intros x [Hx|Hx]; [subst; assumption | apply H2; exact Hx].
+  - intros x [Hx|Hx]; [subst; exact Eb8|]. destruct (H3 x Hx) as [H|[H|H]]; auto.
+Qed.
+
+Lemma c4_ftrav_rel : forall fuel g field parent depth st, c4_wf g -> (depth <= 101)%nat -> (103 <= fuel + depth)%nat -> c4_finv g st ->
+  c4_frel g 1 st (snd (c4_ftrav fuel g field parent depth st)).
+Proof.
+  induction fuel as [|f IH]; intros g field parent depth st Hwf Hd Hf Hinv; [lia|].
+  cbn [c4_ftrav].
+  destruct (Nat.ltb 100 depth) eqn:El; [c4_simple_branch Hinv|].
+  apply PeanoNat.Nat.ltb_ge in El.
+  destruct (field =? 0) eqn:E0; [c4_simple_branch Hinv|].
+  destruct (field =? parent) eqn:Ep; [c4_simple_branch Hinv|].
+  destruct (c4_find g field) as [nd|] eqn:Ef; [|c4_simple_branch Hinv].
+  set (st1 := c4fs_upd_enter field depth (c4fs_upd_calls st)).
+  assert (Hinv1 : c4_finv g st1).
+  { eapply c4_finv_ext; [| | | | | |exact Hinv]; unfold st1; c4_proj; try reflexivity; try apply incl_refl; try apply Hinv.
+    apply PeanoNat.Nat.max_lub; [apply Hinv | lia]. }
+  assert (Hc1 : c4fs_calls st1 = c4fs_calls st + 1) by reflexivity.
+  assert (He1 : c4fs_exp st1 = c4fs_exp st) by reflexivity.
+  destruct (c4_mem field (c4fs_fields st1) || c4_mem field (c4fs_ann st1) || c4_mem field (c4fs_bad st1)) eqn:Eseen.
+  { cbn [snd]. split; [eapply c4_finv_ext; [| | | | | |exact Hinv1]; c4_proj; try reflexivity; try apply incl_refl; try apply Hinv1 | c4_proj; rewrite ?Hc1, ?He1; lia]. }
+  destruct (negb (c4_fis_field g st1 field nd) && negb (c4_fis_annot nd)) eqn:Ekind.
+  { cbn [snd]. split; [eapply c4_finv_ext; [| | | | | |exact Hinv1]; c4_proj; try reflexivity; try apply incl_refl; try apply Hinv1 | c4_proj; rewrite ?Hc1, ?He1; lia]. }
+  set (st2 := if c4_fis_annot nd then c4fs_upd_annot (if c4_fis_field g st1 field nd then field else parent) field st1 else st1).
+  assert (Hinv2 : c4_finv g st2).
+  { unfold st2. destruct (c4_fis_annot nd); [|exact Hinv1].
+    eapply c4_finv_ext; [| | | | | |exact Hinv1]; c4_proj; try reflexivity; try apply incl_refl; try apply Hinv1.
+    - apply c4_incl_if_cons.
+    - apply incl_tl, incl_refl. }
+  assert (Hc2 : c4fs_calls st2 = c4fs_calls st + 1) by (unfold st2; destruct (c4_fis_annot nd); reflexivity).
+  assert (He2 : c4fs_exp st2 = c4fs_exp st) by (unfold st2; destruct (c4_fis_annot nd); reflexivity).
+  destruct (negb (c4_fis_field g st1 field nd)) eqn:Enf.
+  { cbn [snd]. split; [exact Hinv2 | rewrite Hc2, He2; lia]. }
+  assert (Hkey : In field (c4_keys g)) by (eapply c4_find_some_key; eauto).
+  assert (Hnexp : ~ In field (c4fs_exp st2)).
+  { rewrite He2. intro Hx. destruct Hinv as (_ & _ & H3 & _). apply orb_false_elim in Eseen as [Eseen Eb]. apply orb_false_elim in Eseen as [Efi Ean].
+    revert Efi Ean Eb. unfold st1. c4_proj. intros Efi Ean Eb. rewrite c4_mem_false in Efi, Ean.
+    destruct (H3 field Hx) as [H|[H|H]]; [contradiction | contradiction|].
+    apply c4_mem_true in H. rewrite H in Eb. destruct (c4_mem field (c4fs_bad st)) eqn:Em; [congruence|].
+    cbn [c4_mem existsb] in Eb. rewrite N.eqb_refl in Eb. discriminate. }
+  assert (Hann : c4f_T nd = false -> c4_fis_annot nd = true -> In field (c4fs_ann st2)).
+  { intros _ HA. unfold st2. rewrite HA. c4_proj. left. reflexivity. }
+  assert (Hkids : c4_fkids g field = match c4f_kids nd with Some l => l | None => [] end).
+  { unfold c4_fkids. rewrite E0, Ef. reflexivity. }
+  assert (Hgen : forall pc, c4_frel g 1 st
+            (fold_left (fun st0 kid => if c4_mem kid (c4fs_bad st0) then st0
+                                       else let '(r, st') := c4_ftrav f g kid field (S depth) st0 in
+                                            if r then st' else c4fs_upd_bad kid st')
+                       (match c4f_kids nd with Some l => l | None => [] end) (c4fs_upd_record field parent pc nd st2))).
+  { intros pc. destruct (c4_record_inv g field parent pc nd st2 Hinv2 Hkey Hnexp Hann) as (Hi3 & He3 & Hc3).
+    pose proof (c4_ffold_rel f g field depth) as Hfold.
+    destruct (Hfold (fun kid st' Hi => IH g kid field (S depth) st' Hwf ltac:(lia) ltac:(lia) Hi)
+                    (match c4f_kids nd with Some l => l | None => [] end) _ Hi3) as [H1 H2].
+    split; [exact H1|]. rewrite He3, Hc3, Hc2 in H2. rewrite He2 in H2. cbn [c4_fw fold_right] in H2. fold (c4_fw g (c4fs_exp st)) in H2.
+    rewrite Hkids in H2. lia. }
+  destruct (c4_fpcheck g st2 field parent depth nd) as [|[|[|n1]]]; cbn [snd].
+  - apply Hgen.
+  - split; [eapply c4_finv_ext; [| | | | | |exact Hinv2]; c4_proj; try reflexivity; try apply incl_refl; apply Hinv2 | c4_proj; rewrite Hc2, He2; lia].
+  - split; [eapply c4_finv_ext; [| | | | | |exact Hinv2]; c4_proj; try reflexivity; try apply incl_refl; apply Hinv2 | c4_proj; rewrite Hc2, He2; lia].
+  - apply Hgen.
+Qed.
+
+Lemma c4_fst0_inv : forall g, c4_finv g c4_fst0.
+Proof. intros g. unfold c4_finv, c4_fst0; c4_proj. repeat split; try apply NoDup_nil; try (intros x []); lia. Qed.
+
+Lemma c4_acroform_fold_rel_gen : forall fuel g fields st, (103 <= fuel)%nat -> c4_wf g -> c4_finv g st ->
+  c4_frel g (N.of_nat (length fields)) st (fold_left (fun st k => snd (c4_ftrav fuel g k 0 0 st)) fields st).
+Proof.
+  intros fuel g fields. induction fields as [|k l IH]; intros st Hfu Hwf Hinv.
+  - cbn [fold_left length]. split; [exact Hinv | lia].
+  - cbn [fold_left length]. destruct (c4_ftrav_rel fuel g k 0 0 st Hwf) as [H1 H2]; [lia | lia | exact Hinv|].
+    destruct (IH _ Hfu Hwf H1) as [H3 H4]. split; [exact H3 | lia].
+Qed.
+
+Lemma c4_acroform_fold_rel : forall g fields st, c4_wf g -> c4_finv g st ->
+  c4_frel g (N.of_nat (length fields)) st (fold_left (fun st k => snd (c4_ftrav 103 g k 0 0 st)) fields st).
+Proof. intros g fields st. apply (c4_acroform_fold_rel_gen 103 g fields st). apply le_n. Qed.
+
+(* traverseField never exhausts fuel 103, whatever the graph: the depth limit bounds the recursion *)
+Lemma acroform_fuel_lemma : forall g fields, c4_wf g -> c4fs_fuel_out (c4_acroform g fields) = false.
+Proof. intros g fields Hwf. destruct (c4_acroform_fold_rel g fields c4_fst0 Hwf (c4_fst0_inv g)) as [(_ & _ & _ & _ & H) _]. exact H. Qed.
+
+(* recursion depth never exceeds 100 *)
+Lemma acroform_depth_lemma : forall g fields, c4_wf g -> (c4fs_maxdepth (c4_acroform g fields) <= 100)%nat.
+Proof. intros g fields Hwf. destruct (c4_acroform_fold_rel g fields c4_fst0 Hwf (c4_fst0_inv g)) as [(_ & _ & _ & H & _) _]. exact H. Qed.
+
+(* no field has its /Kids iterated twice, and the number of calls of traverseField is at most the number of entries of
+   /Fields plus the total length of the /Kids arrays of the graph: linear in the size of the input *)
+Lemma acroform_calls_lemma : forall g fields, c4_wf g ->
+  NoDup (c4fs_exp (c4_acroform g fields)) /\ (length (c4fs_exp (c4_acroform g fields)) <= length g)%nat /\
+  c4fs_calls (c4_acroform g fields) <= N.of_nat (length fields) + c4_ftotal g.
+Proof.
+  intros g fields Hwf. destruct (c4_acroform_fold_rel g fields c4_fst0 Hwf (c4_fst0_inv g)) as [(H1 & H2 & _) H3].
+  split; [exact H1|]. split; [eapply c4_nodup_keys_le; eauto|].
+  pose proof (c4_fw_le_total g _ H1) as Hw. unfold c4_acroform. cbn [c4_fst0 c4fs_calls c4fs_exp c4_fw fold_right] in H3. lia.
+Qed.
+
+(* a field that is reached again after its /Kids were iterated is reported ("loop detected while traversing /AcroForm")
+   and not expanded *)
+Lemma acroform_revisit_reported_lemma : forall f g field parent depth st, c4_wf g -> c4_finv g st ->
+  In field (c4fs_exp st) -> (depth <= 100)%nat ->
+  fst (c4_ftrav (S f) g field parent depth st) = false /\
+  c4fs_wloop (snd (c4_ftrav (S f) g field parent depth st)) = c4fs_wloop st + 1 /\
+  c4fs_exp (snd (c4_ftrav (S f) g field parent depth st)) = c4fs_exp st.
+Proof.
+  intros f g field parent depth st Hwf (_ & H2 & H3 & _) Hin Hd. cbn [c4_ftrav].
+  destruct (Nat.ltb 100 depth) eqn:El; [apply PeanoNat.Nat.ltb_lt in El; lia|].
+  pose proof (H2 field Hin) as Hk. destruct (c4_find_key_some _ g field Hk) as [nd Ef].
+  assert (E0 : (field =? 0) = false) by (apply N.eqb_neq; eapply c4_wf_find_nonzero; eauto). rewrite E0.
+  destruct (field =? parent); [cbn [fst snd]; c4_proj; auto|]. rewrite Ef.
+  assert (Es : c4_mem field (c4fs_fields (c4fs_upd_enter field depth (c4fs_upd_calls st)))
+               || c4_mem field (c4fs_ann (c4fs_upd_enter field depth (c4fs_upd_calls st)))
+               || c4_mem field (c4fs_bad (c4fs_upd_enter field depth (c4fs_upd_calls st))) = true).
+  { c4_proj. destruct (H3 field Hin) as [H|[H|H]]; apply c4_mem_true in H; rewrite H.
+    - reflexivity.
+    - apply orb_true_iff. left. apply orb_true_r.
+    - apply orb_true_iff. right. destruct (c4_mem field (c4fs_bad st)) eqn:Em; [exact Em|]. cbn [c4_mem existsb]. rewrite N.eqb_refl. reflexivity. }
+  rewrite Es. cbn [fst snd]. c4_proj. auto.
+Qed.
+
+(* ------------------------------------------------------------------ (e) parser limits *)
+Definition c4_nres_depth (r : c4_nres) : N := match r with C4nDone d | C4nLimit d | C4nEof d => d end.
+
+Lemma c4_nest_run_inv : forall mx toks depth maxd, depth <= maxd -> maxd <= mx + 1 ->
+  c4_nres_depth (c4_nest_run mx toks depth maxd) <= mx + 1.
+Proof.
+  intros mx toks. induction toks as [|t r IH]; intros depth maxd H1 H2; [cbn; exact H2|].
+  destruct t; cbn [c4_nest_run].
+  - destruct (mx <? depth) eqn:E; [cbn; exact H2|]. apply N.ltb_ge in E. apply IH; lia.
+  - destruct (depth <=? 1); [cbn; exact H2|]. apply IH; lia.
+  - apply IH; assumption.
+Qed.
+
+(* the parser's container stack never holds more than parser_max_nesting + 1 frames, for every token sequence *)
+Lemma parser_nesting_bounded_lemma : forall mx toks, c4_nres_depth (c4_nest mx toks) <= mx + 1.
+Proof. intros mx toks. unfold c4_nest. apply c4_nest_run_inv; lia. Qed.
+
+(* ... and a run of opening tokens longer than the limit is refused with the limits error *)
+Lemma parser_nesting_refused_lemma : forall mx rest,
+  exists d, c4_nest mx (repeat C4tOpen (N.to_nat mx + 1) ++ rest) = C4nLimit d.
+Proof.
+  intros mx rest. unfold c4_nest.
+  assert (H : forall k depth maxd, (1 <= k)%nat -> N.of_nat k + depth = mx + 2 ->
+            exists d, c4_nest_run mx (repeat C4tOpen k ++ rest) depth maxd = C4nLimit d).
+  { induction k as [|k IH]; intros depth maxd Hk Hd; [lia|].
+    cbn [repeat app c4_nest_run]. destruct (mx <? depth) eqn:E; [eexists; reflexivity|].
+    apply N.ltb_ge in E. apply IH; lia. }
+  apply H; lia.
+Qed.
+
+Lemma c4_bad_run_budget : forall lim_d lim_n sanity evs s nbad mx,
+  0 < c4b_max s -> nbad + c4b_max s = mx ->
+  snd (c4_bad_run lim_d lim_n sanity evs s nbad) <= mx.
+Proof.
+  intros lim_d lim_n sanity evs. induction evs as [|e r IH]; intros s nbad mx Hpos Hsum; [cbn; lia|].
+  cbn [c4_bad_run]. destruct (c4e_bad e).
+  - unfold c4_bad_check. cbn [c4b_max c4b_good c4b_bad].
+    match goal with |- context [if ?c then C4bContainer else _] => destruct c end; [cbn; lia|].
+    destruct (c4b_max s =? 0) eqn:E0; [apply N.eqb_eq in E0; lia|]. cbn [negb andb].
+    destruct (c4b_max s - 1 =? 0) eqn:E1; [cbn; lia|]. apply N.eqb_neq in E1.
+    match goal with |- context [if ?c then C4bGoOn _ else _] => destruct c end.
+    + apply IH; cbn [c4b_max]; lia.
+    + match goal with |- context [if ?c then C4bGiveUp else _] => destruct c end; [cbn; lia|].
+      apply IH; cbn [c4b_max]; lia.
+  - match goal with |- context [if ?c then (C4bContainer, _) else _] => destruct c end; [cbn; lia|].
+    apply IH; cbn [c4b_max]; assumption.
+Qed.
+
+(* the parse-error budget: with parser_max_errors = mx > 0 the parser handles at most mx bad tokens of one object,
+   whatever the tokens are (the mx-th one ends the object with the limits error at the latest) *)
+Lemma parser_error_budget_lemma : forall lim_d lim_n sanity evs mx, 0 < mx ->
+  snd (c4_bad_run lim_d lim_n sanity evs (mkC4bst mx 0 0) 0) <= mx.
+Proof. intros. apply c4_bad_run_budget; cbn [c4b_max]; lia. Qed.
+
+(* ------------------------------------------------------------------ (f) checked conversions *)
+Definition c4_in_range (sg : bool) (bits : N) (v : Z) : Prop := (c4_tmin sg bits <= v <= c4_tmax sg bits)%Z.
+
+Lemma c4_pow_split : forall b, 0 < b -> (2 ^ Z.of_N b = 2 * 2 ^ (Z.of_N b - 1))%Z.
+Proof. intros b Hb. rewrite <- Z.pow_succ_r by lia. f_equal. lia. Qed.
+
+Lemma c4_cast_id : forall sg bits v, 0 < bits -> c4_in_range sg bits v -> c4_cast sg bits v = v.
+Proof.
+  intros sg bits v Hb [H1 H2]. unfold c4_cast, c4_tmin, c4_tmax in *.
+  pose proof (c4_pow_split bits Hb) as Hp.
+  assert (Hpos : (0 < 2 ^ (Z.of_N bits - 1))%Z) by (apply Z.pow_pos_nonneg; lia).
+  destruct sg.
+  - destruct (Z_lt_ge_dec v 0) as [Hn|Hn].
+    + assert (E : (v mod 2 ^ Z.of_N bits = v + 2 ^ Z.of_N bits)%Z).
+      { symmetry. apply Z.mod_unique with (q := (-1)%Z); lia. }
+      rewrite E. cbn [andb]. destruct (2 ^ (Z.of_N bits - 1) <=? v + 2 ^ Z.of_N bits)%Z eqn:El; [lia|].
+      apply Z.leb_gt in El. lia.
+    + rewrite Z.mod_small by lia. cbn [andb]. destruct (2 ^ (Z.of_N bits - 1) <=? v)%Z eqn:El; [apply Z.leb_le in El; lia | reflexivity].
+  - cbn [andb]. rewrite Z.mod_small by lia. reflexivity.
+Qed.
+
+(* QIntC::to_*: for every pair of integral types and every source value, the result is the error outcome or the
+   value itself - never a wrapped value - and it is the error outcome exactly when the value is outside the target *)
+Lemma conversion_checked_lemma : forall fs fb ts tb i, 0 < fb -> 0 < tb -> c4_in_range fs fb i ->
+  (c4_in_range ts tb i -> c4_convert fs fb ts tb i = Some i) /\
+  (~ c4_in_range ts tb i -> c4_convert fs fb ts tb i = None).
+Proof.
+  intros fs fb ts tb i Hfb Htb Hin.
+  assert (Hposf : (0 < 2 ^ (Z.of_N fb - 1))%Z) by (apply Z.pow_pos_nonneg; lia).
+  assert (Hpost : (0 < 2 ^ (Z.of_N tb - 1))%Z) by (apply Z.pow_pos_nonneg; lia).
+  pose proof (c4_pow_split fb Hfb) as Hpf. pose proof (c4_pow_split tb Htb) as Hpt.
+  unfold c4_convert. destruct fs, ts.
+  - (* signed -> signed *)
+    split; intros Ht.
+    + destruct Ht as [H1 H2]. destruct (i <? c4_tmin true tb)%Z eqn:E1; [apply Z.ltb_lt in E1; lia|].
+      destruct (c4_tmax true tb <? i)%Z eqn:E2; [apply Z.ltb_lt in E2; lia|]. cbn [orb].
+      rewrite c4_cast_id; [reflexivity | assumption | split; assumption].
+    + destruct (i <? c4_tmin true tb)%Z eqn:E1; [reflexivity|]. destruct (c4_tmax true tb <? i)%Z eqn:E2; [reflexivity|].
+      apply Z.ltb_ge in E1, E2. exfalso. apply Ht. split; assumption.
+  - (* signed -> unsigned *)
+    split; intros Ht.
+    + destruct Ht as [H1 H2]. unfold c4_tmin in H1. destruct (i <? 0)%Z eqn:E1; [apply Z.ltb_lt in E1; lia|]. cbn [orb].
+      assert (Hc : c4_cast false fb i = i).
+      { unfold c4_cast. cbn [andb]. destruct Hin as [_ Hi2]. unfold c4_tmax in Hi2. apply Z.mod_small. lia. }
+      rewrite Hc. destruct (c4_tmax false tb <? i)%Z eqn:E2; [apply Z.ltb_lt in E2; lia|].
+      rewrite c4_cast_id; [reflexivity | assumption | split; assumption].
+    + destruct (i <? 0)%Z eqn:E1; [reflexivity|]. cbn [orb]. apply Z.ltb_ge in E1.
+      assert (Hc : c4_cast false fb i = i).
+      { unfold c4_cast. cbn [andb]. destruct Hin as [_ Hi2]. unfold c4_tmax in Hi2. apply Z.mod_small. lia. }
+      rewrite Hc. destruct (c4_tmax false tb <? i)%Z eqn:E2; [reflexivity|]. apply Z.ltb_ge in E2.
+      exfalso. apply Ht. split; [unfold c4_tmin; exact E1 | exact E2].
+  - (* unsigned -> signed *)
+    assert (Hm : c4_cast false tb (c4_tmax true tb) = c4_tmax true tb).
+    { unfold c4_cast, c4_tmax. cbn [andb]. apply Z.mod_small. lia. }
+    rewrite Hm. destruct Hin as [Hi1 _]. unfold c4_tmin in Hi1.
+    split; intros Ht.
+    + destruct Ht as [H1 H2]. destruct (c4_tmax true tb <? i)%Z eqn:E2; [apply Z.ltb_lt in E2; lia|].
+      rewrite c4_cast_id; [reflexivity | assumption | split; assumption].
+    + destruct (c4_tmax true tb <? i)%Z eqn:E2; [reflexivity|]. apply Z.ltb_ge in E2.
+      exfalso. apply Ht. split; [unfold c4_tmin; lia | exact E2].
+  - (* unsigned -> unsigned *)
+    destruct Hin as [Hi1 _]. unfold c4_tmin in Hi1.
+    split; intros Ht.
+    + destruct Ht as [H1 H2]. destruct (c4_tmax false tb <? i)%Z eqn:E2; [apply Z.ltb_lt in E2; lia|].
+      rewrite c4_cast_id; [reflexivity | assumption | split; assumption].
+    + destruct (c4_tmax false tb <? i)%Z eqn:E2; [reflexivity|]. apply Z.ltb_ge in E2.
+      exfalso. apply Ht. split; [unfold c4_tmin; exact Hi1 | exact E2].
+Qed.
+
+(* util::fits<T> is exactly "the value is inside T's range", and util::to<T> never returns a wrapped value *)
+Lemma fits_exact_lemma : forall fs fb ts tb v, 0 < tb -> c4_in_range fs fb v ->
+  (c4_fits fs fb ts tb v = true <-> c4_in_range ts tb v) /\
+  (forall r, c4_util_to fs fb ts tb v = Some r -> r = v /\ c4_in_range ts tb r).
+Proof.
+  intros fs fb ts tb v Htb [Hf1 Hf2].
+  assert (Hfit : c4_fits fs fb ts tb v = true <-> c4_in_range ts tb v).
+  { unfold c4_fits, c4_in_range. rewrite andb_true_iff, !negb_true_iff, !andb_false_iff, !Z.ltb_ge. split.
+    - intros [[H|H] [H'|H']]; lia.
+    - intros [H1 H2]. split; right; assumption. }
+  split; [exact Hfit|]. intros r Hr. unfold c4_util_to in Hr. destruct (c4_fits fs fb ts tb v) eqn:E; [|discriminate].
+  pose proof (proj1 Hfit eq_refl) as E'. inversion Hr; subst. rewrite c4_cast_id by assumption. split; [reflexivity | exact E'].
+Qed.
+
+(* ------------------------------------------------------------------ (g) one reconstruction per document *)
+Definition c4_late (e : c4_rev) : bool := negb (c4r_found_startxref e) && c4r_late_ok e.
+
+Lemma c4_recon_step_cases : forall s e,
+  c4r_scans (c4_recon_step s e) + (if c4r_flag s then 1 else 0) + 1 <=
+  c4r_scans s + 1 + (if c4r_flag (c4_recon_step s e) then 1 else 0) + (if c4_late e then 1 else 0).
+Proof.
+  intros s e. unfold c4_recon_step, c4_late. destruct (c4r_flag s); [cbn; destruct (negb (c4r_found_startxref e) && c4r_late_ok e); lia|].
+  destruct (negb (c4r_found_startxref e) && c4r_late_ok e); cbn; lia.
+Qed.
+Lemma c4_recon_fold : forall evs s,
+  c4r_scans (fold_left c4_recon_step evs s) + (if c4r_flag s then 1 else 0)
+    <= c4r_scans s + 1 + N.of_nat (length (filter c4_late evs)).
+Proof.
+  induction evs as [|e r IH]; intros s; [cbn; destruct (c4r_flag s); lia|].
+  cbn [fold_left filter]. specialize (IH (c4_recon_step s e)). pose proof (c4_recon_step_cases s e) as Hc.
+  destruct (c4r_flag s); destruct (c4r_flag (c4_recon_step s e)); destruct (c4_late e); cbn [length]; lia.
+Qed.
+
+(* for ANY sequence of error events the file is scanned at most once, plus once for every time the late-startxref
+   branch succeeded (that branch resets the flag) *)
+Lemma reconstruct_bounded_lemma : forall evs,
+  c4r_scans (c4_recon_run evs) <= 1 + N.of_nat (length (filter c4_late evs)).
+Proof. intros evs. unfold c4_recon_run. pose proof (c4_recon_fold evs (mkC4rst false 0 0)) as H. cbn [c4r_flag c4r_scans] in H. lia. Qed.
+
+(* only the call made by parse() can have found_startxref = false: at most two reconstructions per document, and at
+   most one when that call does not take the late-startxref branch *)
+Lemma reconstruct_at_most_twice_lemma : forall e evs,
+  Forall (fun e => c4r_found_startxref e = true) evs ->
+  c4r_scans (c4_recon_run (e :: evs)) <= 2 /\ (c4_late e = false -> c4r_scans (c4_recon_run (e :: evs)) <= 1).
+Proof.
+  intros e evs H.
+  assert (Hf : filter c4_late evs = []).
+  { induction H as [|x l Hx Hl IH]; [reflexivity|]. cbn [filter]. unfold c4_late at 1. rewrite Hx. cbn. exact IH. }
+  pose proof (reconstruct_bounded_lemma (e :: evs)) as Hb. cbn [filter] in Hb.
+  destruct (c4_late e); cbn [length] in Hb; rewrite Hf in Hb; cbn [length] in Hb; split; intros; try discriminate; lia.
+Qed.
+
+(* ------------------------------------------------------------------ exception translation *)
+(* nothing derived from std::exception leaves the C API or the CLI untranslated: the C API sets QPDF_ERRORS with one of
+   three documented codes, the CLI exits with 2; without an exception the status is 0, or 3 with warnings *)
+Lemma exception_translation_lemma : forall e w,
+  (e <> C4eNone -> fst (c4_trap_c e) = true /\ 1 <= snd (c4_trap_c e) <= 3 /\ c4_trap_cli e w = 2) /\
+  (e = C4eNone -> c4_trap_c e = (false, 0) /\ c4_trap_cli e w = (if w then 3 else 0)).
+Proof. intros e w. destruct e; cbn; split; intros H; try congruence; repeat split; try lia; reflexivity. Qed.
